@@ -77,6 +77,10 @@ type Exec struct {
 	conc      *ConcCtx
 	maxSteps  int
 	cfg       map[string]string
+	objSite   map[int]string  // allocation site of objects created by Alloc (concurrent mode)
+	track     map[string]bool // plain locations (allocation site # path) modelled as shared cells
+	stableIDs bool
+	curSite   string
 	freshN    int
 	lenient   bool
 	totalSteps int
@@ -90,7 +94,7 @@ type Exec struct {
 }
 
 func NewExec(prog *ssa.Program) *Exec {
-	return &Exec{prog: prog, unroll: 8, nextObj: 1, globals: map[*ssa.Global]int{}, globalTy: map[int]types.Type{}, globalNm: map[int]string{},
+	return &Exec{objSite: map[int]string{}, prog: prog, unroll: 8, nextObj: 1, globals: map[*ssa.Global]int{}, globalTy: map[int]types.Type{}, globalNm: map[int]string{},
 		pdomCache: map[*ssa.Function][]*ssa.BasicBlock{}, funcsSeen: map[string]bool{}, stubsUsed: map[string]bool{},
 		nondets: map[string]*Term{}, headCache: map[[2]interface{}]*ssa.BasicBlock{}, feasCache: map[string]bool{}, lightCache: map[[2]interface{}]bool{}, nondetTy: map[string]string{}, maxSteps: 3_000_000, cfg: map[string]string{}}
 }
@@ -100,7 +104,28 @@ func (e *Exec) fresh(prefix string, s Sort) *Term {
 	return Var(fmt.Sprintf("%s!%d", prefix, e.freshN), s)
 }
 
+// stable object ids: in the tracking passes of a concurrent harness an object is named by (thread, instruction site,
+// occurrence on the path), so that reference values remembered from one exploration pass mean the same objects in
+// the next; mutually exclusive paths of a thread then share ids, which is harmless (each state has its own heap and
+// every event carries its path guard).
+var (
+	stableTable = map[string]int{}
+	stableNext  = 1 << 20
+)
+
 func (e *Exec) newObj(st *State, v Value) int {
+	if e.stableIDs && st.Thread != nil {
+		key := st.Thread.rec.stable + "|" + e.curSite
+		key = fmt.Sprintf("%s|%d", key, st.Thread.bump("obj@"+e.curSite))
+		id, ok := stableTable[key]
+		if !ok {
+			id = stableNext
+			stableNext++
+			stableTable[key] = id
+		}
+		st.Heap[id] = v
+		return id
+	}
 	id := e.nextObj
 	e.nextObj++
 	st.Heap[id] = v
